@@ -576,6 +576,9 @@ func (root *Root) resolveField(
 		field.ConType = t
 		ea = append(ea, field.sortArgs()...)
 		if 0 < len(ea) {
+			// Not checked yet as far as the next resolve of the same
+			// executable is concerned.
+			field.ConType = nil
 			Errors(ea).in(field.key())
 			return
 		}
